@@ -275,6 +275,38 @@ func arenas() []*arena {
 		w.Flush()
 		return [][]byte{headOf(sc.Output())}
 	}})
+	// a message that was read from a connection, then given further fields and written again
+	// (a gateway forwarding ctx.Request, a handler relaying an upstream response)
+	as = append(as, &arena{name: "Request.Header(parsed from the wire, client codec)", typ: reflect.TypeOf(&protocol.RequestHeader{}), run: func(ops func(reflect.Value)) [][]byte {
+		var rq protocol.Request
+		in := standard.VerifNewConn(sconn.New([][]byte{[]byte("GET /p HTTP/1.1\r\nHost: h\r\n\r\n")}, sconn.EOF), 4096)
+		if err := req.Read(&rq, in); err != nil {
+			return nil
+		}
+		ops(reflect.ValueOf(&rq.Header))
+		sc := sconn.New(nil, sconn.EOF)
+		w := standard.VerifNewConn(sc, 4096)
+		if err := req.Write(&rq, w); err != nil {
+			return nil
+		}
+		w.Flush()
+		return [][]byte{headOf(sc.Output())}
+	}})
+	as = append(as, &arena{name: "Response.Header(parsed from the wire, server codec)", typ: reflect.TypeOf(&protocol.ResponseHeader{}), run: func(ops func(reflect.Value)) [][]byte {
+		var rs protocol.Response
+		in := standard.VerifNewConn(sconn.New([][]byte{[]byte("HTTP/1.1 200 OK\r\nContent-Length: 2\r\n\r\nok")}, sconn.EOF), 4096)
+		if err := resp.Read(&rs, in); err != nil {
+			return nil
+		}
+		ops(reflect.ValueOf(&rs.Header))
+		sc := sconn.New(nil, sconn.EOF)
+		w := standard.VerifNewConn(sc, 4096)
+		if err := resp.Write(&rs, w); err != nil {
+			return nil
+		}
+		w.Flush()
+		return [][]byte{headOf(sc.Output())}
+	}})
 	as = append(as, &arena{name: "Response(server codec)", typ: reflect.TypeOf(&protocol.Response{}), run: func(ops func(reflect.Value)) [][]byte {
 		var rs protocol.Response
 		ops(reflect.ValueOf(&rs))
